@@ -312,10 +312,10 @@ def run(ctx):
     N = ctx.pick(24, 90)
     wl = [(f.numerator, f.denominator) for f in wraps]
     jobs = [{"kind": "grid", "wraps": ch, "N": N} for ch in fnref.chunks(wl, ctx.pick(12, 16))]
-    nrand = ctx.pick(40000, 1600000)
+    nrand = ctx.pick(40000, 6000000)
     per = ctx.pick(10000, 50000)
     jobs += [{"kind": "random", "n": per} for _ in range(nrand // per)]
-    ctx.shard(jobs, timeout=ctx.pick(90, 340))
+    ctx.shard(jobs, timeout=ctx.pick(90, 1500))
     ctx.exhaustive = True
     ctx.extra["exhaustive_scope"] = "the rational / integer grid named in the rule; floats are sampled"
     ctx.sample({"grid_wraps": [str(f) for f in wraps[:9]], "grid_angle_denominators": list(DENS), "N": N})
